@@ -29,7 +29,7 @@ ASSUMPTIONS = ["the standard mutexes, shared_ptr control blocks and condition va
 def run(ctx):
     tab = load_table("guards.json")["classes"]
     ctx.rule("C07.lockset", "static Eraser: every access to a non-atomic shared field happens with its guard held in a "
-             "sufficient mode, on every instantiated method", floor=300)
+             "sufficient mode, on every instantiated method", floor=150)
     for cls in sorted(tab):
         ctx.step(check_guarded_fields, ctx, "C07.lockset", cls, skip_atomic=True)
     atab = json.load(open(os.path.join(os.path.dirname(os.path.dirname(os.path.dirname(os.path.abspath(__file__)))),
